@@ -150,10 +150,15 @@ def check_join(ctx, schema, pop, m, expected, what):
                            '%s: %s: linked (referring->referred) %r / (back) %r, key join says %r'
                            % (what, r.describe(), sorted(fwd), sorted(back), sorted(expected[i])), rop=r)
     # a linked referring instance reads the referred identifying value
+    referential = set((r.src, a) for r in schema.rops for a in r.src_keys)
     for i, r in enumerate(schema.rops):
         srcs = list(m.select_many(r.src))
         for (si, ti) in expected[i]:
             for a, k in zip(r.src_keys, r.tgt_keys):
+                if (r.tgt, k) in referential:
+                    # a key chain: the referred attribute is itself derived from a link of the referred instance
+                    # (and reads as unset where that link is missing), so its row value is not what is read
+                    continue
                 v = getattr(srcs[si], a)
                 if not sqlgen.same_value(v, pop.rows[r.tgt][ti][k]) and len(expected[i]) == len(set(s for s, _ in expected[i])):
                     raise Mismatch('%s/referential-read' % what, '%s.%s of row %d reads %r, referred value %r'
@@ -510,7 +515,13 @@ def run(ctx):
             case = dict(schema=schema.describe(), rows=pop.rows)
             try:
                 expected, nontrivial, m0 = loader_checks(ctx, rng, schema, pop, tmpdir)
-                api_checks(ctx, rng, schema, pop, expected, m0)
+                if sqlgen.chained(schema):
+                    # a key chain: an instance created through the API cannot hold a dangling referential value
+                    # (it is derived from the link), so instances referring to that attribute find nothing to
+                    # match - the rows are not "the same rows" any more; compared for loading only
+                    ctx.count('api_comparison_skipped_key_chain')
+                else:
+                    api_checks(ctx, rng, schema, pop, expected, m0)
                 ctx.case((schema.sql(), repr(pop.rows)), nontrivial,
                          sample=dict(schema=schema.sql(), rows=pop.rows,
                                      join=dict((k, sorted(v)) for k, v in expected.items())))
